@@ -752,7 +752,7 @@ fn random_script(rng: &mut Rng, id: String, fix: &[String]) -> Script {
 }
 
 pub fn run(ctx: &Ctx) -> Report {
-    let random_scripts = ctx.size(5_000, 500_000) as usize;
+    let random_scripts = ctx.size(8_000, 500_000) as usize;
     let fix = fixtures(ctx);
     // items: 24 exhaustive batches (first key), size-sweep batches (250 widths), random batches
     let rand_batches = (random_scripts + 49) / 50;
